@@ -731,6 +731,11 @@ type vfsScript struct {
 	RespList filter.ID
 	RespRule filter.RuleText
 
+	// UpRcode, if not 0, is the (extended) response code the upstream gives
+	// to an EDNS query: codes above 15 need the OPT record of the response to
+	// carry their upper bits.
+	UpRcode int
+
 	GlobalRL int
 	ProfRL   int
 }
@@ -848,7 +853,11 @@ func (s *vfsStack) lookup(idx [2]int, ok bool) (*agd.Profile, *agd.Device, error
 func vfsUpstream(s *vfsStack) dnsserver.Handler {
 	return dnsserver.HandlerFunc(func(ctx context.Context, rw dnsserver.ResponseWriter, req *dns.Msg) (err error) {
 		q := req.Question[0]
-		s.on(ctx, func(tr *vfsTrace, _ *vfsScript) { tr.Upstream = append(tr.Upstream, strings.ToLower(q.Name)) })
+		upRcode := 0
+		s.on(ctx, func(tr *vfsTrace, sc *vfsScript) {
+			tr.Upstream = append(tr.Upstream, strings.ToLower(q.Name))
+			upRcode = sc.UpRcode
+		})
 
 		resp := (&dns.Msg{}).SetReply(req)
 		resp.RecursionAvailable = true
@@ -864,6 +873,10 @@ func vfsUpstream(s *vfsStack) dnsserver.Handler {
 		}
 
 		switch {
+		case upRcode != 0 && req.IsEdns0() != nil:
+			// BADVERS, BADKEY, BADCOOKIE and the like: no data, the OPT record
+			// below carries the upper bits of the code.
+			resp.Rcode = upRcode
 		case strings.HasPrefix(strings.ToLower(q.Name), "y."):
 			resp.Rcode = dns.RcodeNameError
 			resp.Ns = []dns.RR{soa}
@@ -1288,6 +1301,10 @@ func (sc vfsScript) Describe() string {
 		s += fmt.Sprintf("+%s(%s %q)", vfsOutcomeNames[sc.RespToo], sc.RespList, sc.RespRule)
 	}
 
+	if sc.UpRcode != 0 {
+		s += fmt.Sprintf(" upstream-rcode=%d", sc.UpRcode)
+	}
+
 	return s
 }
 
@@ -1699,6 +1716,10 @@ func vfsDrawRequest(t *rapid.T, s *vfsStack, o vfsOpts, prev *vfsRequest) (r *vf
 				r.Script.RespRule = rapid.SampledFrom(vfsRuleTextPool).Draw(t, "respRule")
 			}
 		}
+	}
+
+	if r.EDNS && rapid.IntRange(0, 7).Draw(t, "extendedRcode") == 0 {
+		r.Script.UpRcode = rapid.SampledFrom([]int{16, 17, 18, 22, 23, 3841}).Draw(t, "upRcode")
 	}
 
 	gl := []int{vfsRLPass, vfsRLPass, vfsRLPass, vfsRLAllowlisted}
